@@ -184,7 +184,7 @@ func (p c19) Gen(c *run.Ctx, idx int) (json.RawMessage, error) {
 	}
 	// files
 	nfiles := 1 + r.Intn(4)
-	names := []string{"a.txt", "b b.txt", "ünï.bin", `q"uote.dat`, "a.txt", "c d é.txt", ""}
+	names := []string{"a.txt", "b b.txt", "ünï.bin", `q"uote.dat`, "a.txt", "c d é.txt", "", "zwj\u200djoined.png", "nb\u00a0sp.txt", "rtl\u200fmark.txt", "back\\slash.txt", "semi;colon=eq.txt"}
 	perm := r.Perm(len(slots))
 	si := 0
 	for fi := 0; fi < nfiles && si < len(perm); fi++ {
